@@ -48,7 +48,19 @@ def run(name, pids, tier='quick'):
     rc, o = sh('git -C /repo status --porcelain'); assert o.strip() == '', '/repo not clean: ' + o
     rc, o = sh('git -C /repo apply %s' % os.path.join(dst, 'patch.diff'))
     if rc != 0:
-        rc, o = sh('git -C /repo apply --3way %s && git -C /repo reset -q' % os.path.join(dst, 'patch.diff'))
+        # the pinned commit has since received fix: commits; take the seed's side of conflicting hunks
+        rb = os.path.join(dst, 'patch_rebased.diff')
+        if os.path.exists(rb):
+            rc, o = sh('git -C /repo apply %s' % rb)
+        else:
+            sh('git -C /repo apply --3way %s' % os.path.join(dst, 'patch.diff'))
+            rc2, conf = sh('git -C /repo diff --name-only --diff-filter=U')
+            for f in conf.split():
+                sh('git -C /repo checkout --theirs -- %s' % f)
+            sh('git -C /repo reset -q')
+            rc, o = sh('git -C /repo diff')
+            open(rb, 'w').write(o)
+            rc = 0 if o.strip() and '<<<<<<<' not in o else 1
     assert rc == 0, o
     res = {}
     try:
